@@ -507,6 +507,12 @@ def r5(ctx):
     kw = dict(kwargs(kc[0]))
     if via_wrapper:
         kw["predictions"] = kw.get("per_plate_predictions", kc[0].args[0] if kc[0].args else None)
+    # the scorer's configured triple budget reaches the kernel: without the keyword the kernel's own default (5000) applies and a
+    # scorer asked for more triples silently sub-samples - "equals the direct estimator when all triples are enumerated" fails
+    budget = kw.get("max_combos")
+    ctx.check("R5", f"{f.site()}::triple-budget-reaches-the-kernel", budget is not None and U(inline(budget, lenv)) == "self.max_triples",
+              "the kernel is called with max_combos=self.max_triples",
+              f"the kernel is called with max_combos=`{U(budget) if budget is not None else '<omitted: the default applies>'}`, not the scorer's `self.max_triples`")
     cur = [k for k, v in lenv.items() if U(v).replace(" ", "") == f"[{plates}[k]forkin{sg}]"]
     ok_sel = len(cur) == 1
     ctx.check("R5", f"{f.site()}::inputs-selected-by-subgroup-ids", ok_sel, f"current plates = [plates[k] for k in {sg}] (ids select inputs, in order)",
